@@ -82,6 +82,14 @@ func init() {
 			for i := 0; i < nb; i++ {
 				cs = append(cs, Case{Kind: "balance", Seed: h.Mix(seed, 0xC18B, uint64(i))})
 			}
+			for _, f := range []h.Fork{h.Homestead, h.Byzantium, h.Shanghai} {
+				for _, k := range []byte{h.CALL, h.CALLCODE, h.DELEGATECALL, h.STATICCALL} {
+					if k == h.STATICCALL && f < h.Byzantium {
+						continue
+					}
+					cs = append(cs, Case{Kind: "depth", P: []int64{int64(f), int64(k)}})
+				}
+			}
 			// call trees with logs inside frames whose ancestors fail, traced by the log / call-structure sensitive tracers
 			for i := 0; i < nt; i++ {
 				cs = append(cs, Case{Kind: "ttree", Seed: h.Mix(seed, 0xC18C, uint64(i))})
@@ -256,6 +264,12 @@ func runC18(c Case, tier string) (res CaseResult) {
 			dc.Tx.Entry = h.ECall
 			dc.Tx.From = h.Sender
 		}
+		if dc.Tx.Entry == h.ECall && c.Seed%7 == 0 {
+			// sender and recipient are one account (a contract calling itself at the top level), with value
+			dc.Tx.From = dc.Tx.To
+			dc.Tx.Value = big.NewInt(int64(1 + c.Seed%5))
+			dc.Desc += " (sender = recipient)"
+		}
 		// domain: classify with a plain recorded run of the reference and the fork
 		rs := h.NewRefSession(dc.World, dc.Env, h.RefOpts{Debug: true, RecSteps: true, LightMem: true})
 		rs.Invoke(dc.Tx)
@@ -291,6 +305,27 @@ func runC18(c Case, tier string) (res CaseResult) {
 				dc.Desc, fmt.Sprintf("first difference at byte %d", i), "fork: ..."+clip(fo[lo:], 400), "ref:  ..."+clip(ro[lo:], 400))
 		}
 		res.Shape("tracer", k.name, k.cfg, shapeOf(fs.L))
+	case "depth":
+		// self-recursion to the call-depth limit by every call kind: what is (and is not) announced for the refused call
+		f, kind := h.Fork(c.P[0]), byte(c.P[1])
+		a := h.NewAsm().PushU(1).PushU(0).Op(h.SLOAD, h.ADD).PushU(0)
+		if kind == h.STATICCALL {
+			a.Op(h.POP, h.POP) // (no stores in a static context)
+		} else {
+			a.Op(h.SSTORE)
+		}
+		a.PushU(0).PushU(0).PushU(0).PushU(0)
+		if kind == h.CALL || kind == h.CALLCODE {
+			a.PushU(0)
+		}
+		a.Op(h.ADDRESS, h.GAS, kind, h.POP, h.STOP)
+		dc := DualCase{World: h.BaseWorld([][]byte{a.Bytes()}), Env: h.EnvSpec{Fork: f}, Tx: h.TxSpec{Entry: h.ECall, From: h.Sender, To: h.ContractAddr(0), Gas: 20_000_000_000_000},
+			Desc: fmt.Sprintf("self-recursion by %#x to the depth limit on %s", kind, f)}
+		if fs, _, ok := dualStreams(&res, dc, false, "depth"); ok {
+			res.Max("max_depth", int64(maxDepthOf(fs.L)))
+			res.Shape("depth", f, kind, maxDepthOf(fs.L))
+		}
+		res.Evals = 1
 	case "balance":
 		runC18Balance(c, &res)
 	case "ttree":
@@ -325,4 +360,14 @@ func runC18(c Case, tier string) (res CaseResult) {
 		}
 	}
 	return
+}
+
+func maxDepthOf(l *h.Log) int {
+	m := 0
+	for i := range l.Events {
+		if e := &l.Events[i]; e.K == h.KStep && e.Depth > m {
+			m = e.Depth
+		}
+	}
+	return m
 }
